@@ -295,6 +295,7 @@ def check_analytic(rep, prog, m):
                 return (mx.Sym('DB1[%s]' % tag), mx.Sym('DB2[%s]' % tag))
             return NotImplemented
         it = mx.Interp(prog, m, known_functions=known_, symbolic_loops=True, func_hook=fh)
+        it.array_rows = True
         pp = positional_params(fn)
         a_ = {p_: mx.Sym(p_) for p_ in pp}
         if 'raw' in func_params(fn):
